@@ -150,10 +150,19 @@ def to_coq(inp, out):
         if q[0] == "width":
             qs.append("QWidth %s" % coq_res(o, coq_z))
         elif q[0] == "at":
-            qs.append("QAt %s %s" % (coq_z(q[1]), coq_res(o, coq_z)))
+            if o[0] == "ok":
+                qs.append("QA %s %s" % (coq_z(q[1]), coq_z(o[1])))
+            else:
+                qs.append("QAt %s %s" % (coq_z(q[1]), coq_res(o, coq_z)))
         else:
             if o[0] == "ok":
                 chars |= set("".join(t for t, _ in o[1]))
+            if q[0] == "slice" and q[1] is not None and q[2] is not None:
+                if o[0] == "ok":
+                    qs.append("QK %s %s %s" % (coq_z(q[1]), coq_z(q[2]), coq_fs(o[1])))
+                else:
+                    qs.append("QS %s %s %s" % (coq_z(q[1]), coq_z(q[2]), coq_res(o, coq_fs)))
+                continue
             ix = ("IxSlice %s %s" % (coq_opt(q[1], coq_z), coq_opt(q[2], coq_z))) if q[0] == "slice" \
                 else "IxInt %s" % coq_z(q[1])
             qs.append("QSlice (%s) %s" % (ix, coq_res(o, coq_fs)))
